@@ -116,6 +116,9 @@ func TestDualContouring(t *testing.T) {
 		minScale := 1.0
 		var fixedBox *sdf.Box3
 		fixedCells := 0
+		// (revolved profiles do not touch the axis here: a horn torus has a cusp on the axis, a surface point
+		// without a gradient, and dual contouring needs the gradient at every crossing - DualContouringV2
+		// returns NaN vertices when a lattice edge crosses exactly there; outside the domain, DESIGN 8.13)
 		if kind == "aligned" {
 			// axis-aligned boxes (one, or a union / difference of two) whose faces pass through grid
 			// nodes of the sampled volume, with a cell size that is not a binary fraction: the corner
@@ -151,18 +154,18 @@ func TestDualContouring(t *testing.T) {
 				n = &shape.Node{Op: "diff3", K: []*shape.Node{n, mk("b")}}
 			}
 		} else if kind == "exact" {
-			n = shape.GenExact3(t, S, rapid.IntRange(0, 2).Draw(t, "depth"))
+			n = shape.GenExact3Smooth(t, S, rapid.IntRange(0, 2).Draw(t, "depth"), true)
 		} else if kind == "squashed" {
 			// a matrix-scaled shape (ellipsoid, squashed box ...): its field is not a distance bound - it
 			// over-estimates along a squashed axis - but its zero set is a perfectly good surface
 			k := []float64{g.LogUniform(t, "kx", 0.3, 3), g.LogUniform(t, "ky", 0.3, 3), g.LogUniform(t, "kz", 0.3, 3)}
 			minScale = math.Min(k[0], math.Min(k[1], k[2]))
-			n = &shape.Node{Op: "nuscale3", P: k, K: []*shape.Node{shape.GenExact3(t, S, rapid.IntRange(0, 1).Draw(t, "depth"))}}
+			n = &shape.Node{Op: "nuscale3", P: k, K: []*shape.Node{shape.GenExact3Smooth(t, S, rapid.IntRange(0, 1).Draw(t, "depth"), true)}}
 			if rapid.Bool().Draw(t, "placed") {
 				n = shape.Place3(t, n, S)
 			}
 		} else {
-			a, b := shape.GenExact3(t, S, 1), shape.GenExact3(t, S, 1)
+			a, b := shape.GenExact3Smooth(t, S, 1, true), shape.GenExact3Smooth(t, S, 1, true)
 			op := rapid.SampledFrom([]string{"union3", "diff3", "isect3"}).Draw(t, "op")
 			n = &shape.Node{Op: op, K: []*shape.Node{a, b}}
 		}
@@ -307,6 +310,36 @@ func TestDualContouring(t *testing.T) {
 		}
 		if ts2 := rr(rs); !sameSeq(ts, ts2) {
 			fail("not-repeatable", fmt.Sprintf("second run with the same renderer object produced a different triangle sequence (%d vs %d triangles)", len(ts), len(ts2)))
+		}
+		// the same render once more while two other dual-contouring renders (V1 and V2, another shape) are in
+		// progress in the process: the renderers share nothing, the output is the same
+		if rapid.IntRange(0, 3).Draw(t, "other-dc-renders-running") == 0 {
+			stop := make(chan struct{})
+			var wg sync.WaitGroup
+			for i := 0; i < 2; i++ {
+				wg.Add(1)
+				go func(i int) {
+					defer wg.Done()
+					sp, _ := sdf.Sphere3D(1)
+					bx, _ := sdf.Box3D(v3.Vec{X: 1.2, Y: 0.9, Z: 1.4}, 0.1)
+					decoys := []sdf.SDF3{sp, sdf.Transform3D(bx, sdf.RotateX(0.4).Mul(sdf.RotateZ(0.7)))}
+					for n := 0; ; n++ {
+						select {
+						case <-stop:
+							return
+						default:
+							settings[(i*4+n)%len(settings)].run(decoys[n%2], 10+n%5)
+						}
+					}
+				}(i)
+			}
+			tsc := st.run(rs, cells)
+			close(stop)
+			wg.Wait()
+			if !sameSeq(ts, tsc) {
+				fail("not-repeatable", fmt.Sprintf("a render made while other dual-contouring renders were running produced a different triangle sequence (%d vs %d triangles)", len(ts), len(tsc)))
+			}
+			rec.Add("dc:repeated-while-other-renders-run", 1)
 		}
 		if ts3 := st.run(rs, cells); !sameSeq(ts, ts3) {
 			fail("not-repeatable", fmt.Sprintf("a fresh renderer object produced a different triangle sequence (%d vs %d triangles; the first renderer had rendered another shape before: %v)", len(ts), len(ts3), reused))
